@@ -306,7 +306,7 @@ def documents(draw, max_subnets=4, max_size=3, max_hosts=7, extras=True,
         privescs = {}
         for cfg in hostcfg.values():
             cfg["processes"] = []
-    if _coin(draw, 0.25):
+    if _coin(draw, 0.35):
         # the file may list the hosts in any order
         order = draw(st.permutations(addrs))
         hostcfg = {a: hostcfg[a] for a in order}
